@@ -209,6 +209,11 @@ impl Stream for Negative
 	{
 		"missing-pub-or-import".into()
 	}
+	fn crash_is_failure(&self) -> bool
+	{
+		// a compiler crash on an invalid program is C02's subject
+		false
+	}
 	fn count(&self, tier: Tier) -> u64
 	{
 		tier.pick(600, 15_000)
